@@ -28,15 +28,16 @@ TRUSTED = [
     "C01/C02 world model: the simulated kernel (process table of incarnations, a tick clock that stamps every spawn with a strictly larger `start`, a published btime) and the fake procfs renderer of harness/props/c01.py (/proc/<pid>/stat field 22 + state letter, /proc/stat btime line)",
     "C01/C02 atomicity: kernel events happen between psutil calls, never inside one (the check-then-kill window of os.kill without pidfd is inherent and outside the model)",
     "C01/C02 arithmetic: create time is modelled exactly as start + CLOCK_TICKS*boot (scaled by CLOCK_TICKS); the implementation computes start/CLOCK_TICKS + boot in doubles — injective in `start` for start < 2^53 and boot < 2^32",
-    "C01: EPERM (AccessDenied) from the OS entry points, the Windows branches of send_signal/suspend/…, which CPUs of the full mask handed over by `cpu_affinity([])` the kernel keeps (C18's subject) and `(pid, None)` identities (Popen over an already reaped child) are outside the model",
+    "C01/C02 permission and readability inputs: which PIDs the kernel refuses (EPERM / EACCES from kill, setpriority, ioprio_set, sched_setaffinity, prlimit) and whose /proc/<pid>/stat cannot be opened are inputs of the simulated kernel, attached to the PID (they persist across a recycling until changed), answered by the recorders / by an `open` shadowing the builtin inside psutil._common; ESRCH is decided by the process table alone (a listed process never answers ESRCH)",
+    "C01: the Windows branches of send_signal/suspend/…, which CPUs of the full mask handed over by `cpu_affinity([])` the kernel keeps (C18's subject) and `(pid, None)` identities of Popen over an already reaped child are outside the model",
 ]
 ASSUMPTIONS = [
     "the published boot time (btime line of /proc/stat) is never 0 (C01/C02 theorems carry `b ≠ 0` explicitly)",
     "a PID is not recycled within one clock tick (psutil's documented assumption): every spawn advances the model clock",
 ]
 MANIFEST = {
-    "level_text": "Machine-checked Lean 4 proof over a model of psutil's process-identity machinery (Process._init/_get_ident/create_time/is_running/_raise_if_pid_reused/_send_signal/setters + _pslinux boot_time/BOOT_TIME) and a simulated kernel: by induction over ALL histories of spawn/exit/reap/PID-reuse/tick/clock-step events and interleaved psutil calls, every effect in the log was delivered to the incarnation the asking object was built for, under exactly the object's PID, signals never to PID<=0 (C01_no_wrong_owner, C01_never_group), a call adds at most one effect carrying exactly the requested signal/values (C01_exact_args, signalMap_correct), a call through an object whose incarnation lost its PID raises NoSuchProcess(pid) and leaves the log unchanged (C01_recycled_raises_NSP), and a live incarnation is not refused (C01_live_signal_delivered). The object list of a history holds the objects built by Process(pid) and those built and yielded by process_iter() (cached handles of recycled PIDs included), with oneshot() entry/exit as explicit no-op calls. The proofs hold for the configuration extracted by the translator (cfg_good: guard before every effect, `_gone` test in _raise_if_pid_reused, BOOT_TIME written once); for the two defective configurations the counterexamples are proved (C01_gone_counterexample, C01_bootrewrite_counterexample). Tie: ast-extracted facts + differential run of real psutil.Process objects over a fake procfs with recording OS entry points.",
-    "level_note": "Trusted: Lean kernel + {propext, Classical.choice, Quot.sound}; the translator; the correspondence harness; the simulated kernel/fake procfs; atomic calls (the inherent check-then-kill window is outside the model); exact arithmetic for create times; hypothesis btime != 0.",
+    "level_text": "Machine-checked Lean 4 proof over a model of psutil's process-identity machinery (Process._init/_get_ident/create_time/is_running/_raise_if_pid_reused/_send_signal/setters + _pslinux boot_time/BOOT_TIME) and a simulated kernel: by induction over ALL histories of spawn/exit/reap/PID-reuse/tick/clock-step events and interleaved psutil calls, every effect in the log was delivered to the incarnation the asking object was built for, under exactly the object's PID, signals never to PID<=0 (C01_no_wrong_owner, C01_never_group), a call adds at most one effect carrying exactly the requested signal/values (C01_exact_args, signalMap_correct), a call through an object whose incarnation lost its PID raises NoSuchProcess(pid) and leaves the log unchanged — the kernel is not even asked — (C01_recycled_raises_NSP), and a live incarnation is not refused (C01_live_signal_delivered). The kernel's permission outcome is an input of every effect (histories contain events that make the kernel refuse a PID with EPERM or EACCES and allow it again): a refused os.kill / setpriority / ioprio_set / sched_setaffinity / prlimit is logged as an attempt with its errno, so C01_no_wrong_owner and C01_exact_args also cover what psutil ASKED the kernel for; on a live incarnation exactly one attempt is made and the caller gets AccessDenied(pid) instead of a normal return (C01_live_signal_delivered / C01_live_setter_applied, parametrised by the kernel's answer); in any state a call returns normally iff one OS call was made and carried out, a refused one is AccessDenied(pid), nothing is retried (C01_outcome_truthful); a refusal sets no sticky flag (C02's theorems range over these histories). Outside the property's quantifier (characterisation, not findings): when /proc/pid/stat cannot be opened, Process._init keeps `_ident = (pid, None)` — modelled (mkObj, Kernel.hidden) and compared with the real code; for histories with such phases every logged OS call still carries the asking object's PID, never a PID <= 0, and reaches the right incarnation whenever the object's start time is known (C01_known_start_no_wrong_owner, all histories), while an object with unknown start passes the guard whenever the PID's current holder is unreadable too (C01_unknown_start_counterexample, witness replayed on the real code). The object list of a history holds the objects built by Process(pid) and those built and yielded by process_iter() (cached handles of recycled PIDs included), with oneshot() entry/exit as explicit no-op calls. The proofs hold for the configuration extracted by the translator (cfg_good: guard before every effect, `_gone` test in _raise_if_pid_reused, BOOT_TIME written once); for the two defective configurations the counterexamples are proved (C01_gone_counterexample, C01_bootrewrite_counterexample). Tie: ast-extracted facts + differential run of real psutil.Process objects over a fake procfs with recording OS entry points.",
+    "level_note": "Trusted: Lean kernel + {propext, Classical.choice, Quot.sound}; the translator; the correspondence harness; the simulated kernel/fake procfs; atomic calls (the inherent check-then-kill window is outside the model); exact arithmetic for create times; hypotheses btime != 0 and (main theorems) /proc/pid/stat always readable; permission refusals attached to the PID, ESRCH decided by the process table alone.",
     "technique": "Lean 4 invariant proof by induction over event histories (ghost incarnation ids) + translator-fed proof obligation + differential correspondence on generated and exhaustively enumerated short histories",
     "design_ref": "DESIGN.md §5 C01",
 }
